@@ -14,7 +14,25 @@ VERIF = os.path.dirname(os.path.dirname(os.path.abspath(__file__)))
 
 
 def main():
-    ids = sys.argv[1:] or sorted(os.listdir(os.path.join(VERIF, "seeded")))
+    args = sys.argv[1:]
+    jobs = 1
+    if args and args[0].startswith("-j"):
+        jobs = int(args[0][2:] or 2)
+        args = args[1:]
+    ids = args or sorted(os.listdir(os.path.join(VERIF, "seeded")))
+    if jobs > 1:
+        from concurrent.futures import ThreadPoolExecutor
+
+        with ThreadPoolExecutor(max_workers=jobs) as ex:
+            rcs = list(ex.map(lambda n: subprocess.run([sys.argv[0], n], capture_output=True, text=True), ids))
+        bad = []
+        for n, r in zip(ids, rcs):
+            line = [x for x in r.stdout.splitlines() if x.startswith(n)]
+            print(line[0] if line else f"{n} EVAL-ERROR", flush=True)
+            if r.returncode:
+                bad.append(n)
+        print(f"{len(ids) - len(bad)}/{len(ids)} detected; missed: {bad}")
+        return 1 if bad else 0
     missed = []
     for name in ids:
         d = os.path.join(VERIF, "seeded", name)
